@@ -65,7 +65,28 @@ def run(ctx):
                                                       "-4B", "2,1B", "%d" % rng.randint(-366, 366), "%dB" % rng.randint(-60, 60)]),
                                              rng.choice(["HIJRI", "HIJRI.IA", "HIJRI.IIC", "HIJRI.DIYANET", "HIJRI.IVA"]))
             cls = {"shift", "hijri", "hijri-shift"}
+        if i % 13 == 6 and not zoned:
+            # the Hijri scales under the daily and weekly fillers, with a time-of-day expansion
+            r = rrgen.gen_rule(rng, ds, freq=rng.choice(["DAILY", "WEEKLY", "DAILY"]))
+            r.byyearday, r.byweekno = [], []
+            if ds[3] is not None and not (r.byhour or r.byminute or r.bysecond):
+                r.byhour = sorted(set(rng.sample(range(24), 2)))
+            ext, cls = ";SCALE=%s" % rng.choice(["HIJRI", "HIJRI.IA", "HIJRI.IIC", "HIJRI.IVA"]), {"hijri", "hijri-daily"}
         zone = rng.choice(ZONES) if zoned else None
+        if i % 7 == 3:
+            # sub-hourly rules in a zone, starting a day or two before a change of the clocks: local times that do not
+            # exist or exist twice, somewhere relative to the refills
+            zone = rng.choice(["Europe/Berlin", "America/New_York", "Australia/Sydney", "America/Sao_Paulo"])
+            tr = {"Europe/Berlin": [(2024, 3, 31), (2024, 10, 27), (2019, 3, 31)], "America/New_York": [(2024, 3, 10), (2024, 11, 3)],
+                  "Australia/Sydney": [(2024, 4, 7), (2024, 10, 6)], "America/Sao_Paulo": [(2018, 11, 4), (2019, 2, 17)]}[zone]
+            y_, m_, d_ = rng.choice(tr)
+            d0 = dt.date(y_, m_, d_) - dt.timedelta(days=rng.choice([1, 1, 2]))
+            ds = (d0.year, d0.month, d0.day, rng.randint(0, 23), rng.choice([0, 15, 30, 45, rng.randint(0, 59)]), 0)
+            r = rfc5545.Rule(rng.choice(["MINUTELY", "MINUTELY", "HOURLY"]))
+            r.interval = rng.choice([10, 15, 20, 30, 45]) if r.freq == "MINUTELY" else 1
+            if rng.random() < 0.3:
+                r.count = rng.choice([70, 130, 200])
+            ext, cls = "", {"dst-subhourly"}
         if "hijri" in cls:
             # a DTSTART the Hijri table covers, rule parts that exist on that scale
             ds = (rng.randint(1995, 2030),) + ds[1:]
@@ -113,7 +134,7 @@ def run(ctx):
                 break
         if why is None and r.count is not None and len(inst) > r.count:
             why = "%d occurrences, COUNT=%d" % (len(inst), r.count)
-        if why is None and inst and not zone and "hijri" not in cls:
+        if why is None and inst and not zone:
             start = okey((ds[0], ds[1], ds[2], 255, 0, 0, 0) if ds[3] is None else (ds[0], ds[1], ds[2], ds[3], ds[4], ds[5], 1023))
             if keys[0] < start:
                 why = "first occurrence %s lies before DTSTART" % (inst[0][:6],)
@@ -130,6 +151,10 @@ def run(ctx):
             if inst[0][:6] < (s_utc.year, s_utc.month, s_utc.day, s_utc.hour, s_utc.minute, s_utc.second) and \
                (dt.datetime(*inst[0][:6]) - s_utc.replace(tzinfo=None)).total_seconds() < -3600:
                 why = "first occurrence %s lies before DTSTART (%s UTC)" % (inst[0][:6], s_utc)
+        if why is None and zone and inst and r.until is not None and r.until[3] is not None:
+            # with a zone UNTIL is in UTC, as the occurrences are
+            if inst[-1][:6] > r.until[:6]:
+                why = "last occurrence %s UTC lies after UNTIL %s UTC" % (inst[-1][:6], r.until[:6])
         if why is None and r.count is not None and not ended and len(inst) == r.count and r.count < npop:
             why = "stream does not end after COUNT=%d occurrences" % r.count
         if why:
